@@ -63,28 +63,17 @@ Proof.
   apply forallb_forall. rewrite Forall_forall in H. assumption.
 Qed.
 
-Definition f3_pair (a b : string * string) : bool :=
-  let pa := split_dot (fst a) in
-  let pb := split_dot (fst b) in
-  negb (has_index pa && has_index pb &&
-        segs_eqb (name_prefix pa) (name_prefix pb) &&
-        (2 <=? length (name_prefix pa)) &&
-        negb (String.eqb (fst a) (fst b) && String.eqb (snd a) (snd b))).
-
 Lemma f3_pair_sym a b : f3_pair a b = f3_pair b a.
 Proof.
   unfold f3_pair. f_equal.
   rewrite (String.eqb_sym (fst a) (fst b)), (String.eqb_sym (snd a) (snd b)).
-  rewrite (andb_comm (has_index (split_dot (fst a)))).
-  destruct (segs_eqb (name_prefix (split_dot (fst a))) (name_prefix (split_dot (fst b)))) eqn:E.
-  - apply segs_eqb_eq in E. rewrite E. rewrite (proj2 (segs_eqb_eq _ _) eq_refl). reflexivity.
-  - rewrite TrieProofs.segs_eqb_sym in E. rewrite E. rewrite !andb_false_r. reflexivity.
+  rewrite (orb_comm (is_prefix (name_prefix (split_dot (fst a))) (name_prefix (split_dot (fst b))) && _)).
+  reflexivity.
 Qed.
 
 Lemma guard_F3_perm ne ne' : Permutation ne ne' -> guard_F3 ne = false -> guard_F3 ne' = false.
 Proof.
-  intros P H. unfold guard_F3 in *. change (negb (pairwise f3_pair ne) = false) in H.
-  change (negb (pairwise f3_pair ne') = false).
+  intros P H. unfold guard_F3 in *.
   apply negb_false_iff in H. apply negb_false_iff. apply pairwise_PW in H. apply PW_pairwise.
   eapply PW_perm; [|exact P|exact H]. intros x y E. rewrite f3_pair_sym. assumption.
 Qed.
